@@ -58,7 +58,8 @@ class Site:
 
 
 def describe(fa, S, op, depth=0):
-    """Stable, line-free description of an operand: debug names, field paths, constants, calls."""
+    """Stable, line-free and rename-free description of an operand: constants, parameter
+    numbers, field names, callee names and operator structure (never local variable names)."""
     k = op_const(op)
     if k is not None:
         if "int" in k:
@@ -67,37 +68,36 @@ def describe(fa, S, op, depth=0):
             return repr(k["str"])[:30]
         return "const"
     pl = op_place(op)
-    names = fa.fn.local_names()
     if pl is None:
         return "?"
-    if pl["l"] in names and not [e for e in pl["p"] if e != "*"]:
-        return names[pl["l"]]
-    fields = [e.get("n") or "#%d" % e["f"] for e in pl["p"] if e != "*" and "f" in e]
-    if pl["l"] in names:
-        return names[pl["l"]] + "".join("." + x for x in fields)
+    fields = [e.get("n") or "#%d" % e["f"] for e in pl["p"] if e != "*" and "f" in e
+              and e.get("v") not in ("Some", "Ok", "Continue")]
+    suffix = "".join("." + x for x in fields)
+    l = pl["l"]
+    if 1 <= l <= fa.arg_count:
+        return "arg%d" % l + suffix
     if depth > 4:
-        return "_"
-    d = fa.single_def(pl["l"])
+        return "_" + suffix
+    d = fa.single_def(l)
     if d is None:
-        if 1 <= pl["l"] <= fa.arg_count:
-            return "arg%d" % pl["l"] + "".join("." + x for x in fields)
-        return "_"
+        ty = fa.fn.locals[l]["ty"]
+        return "var:%s" % (ty if len(ty) < 24 else ty.split("<")[0].rsplit("::", 1)[-1]) + suffix
     if d[2] == "call":
         c = callee_of(d[3])
         nm = short(strip_generics((c.get("resolved") or c)["path"])) if c else "?"
         inner = describe(fa, S, d[3]["args"][0], depth + 1) if d[3]["args"] else ""
-        return "%s(%s)" % (nm, inner) + "".join("." + x for x in fields)
+        return "%s(%s)" % (nm, inner) + suffix
     rv = d[3]
     if rv["k"] in ("use", "cast"):
-        return describe(fa, S, rv["op"], depth + 1) + "".join("." + x for x in fields)
+        return describe(fa, S, rv["op"], depth + 1) + suffix
     if rv["k"] == "ref":
-        return describe(fa, S, {"c": rv["place"]}, depth + 1) + "".join("." + x for x in fields)
+        return describe(fa, S, {"c": rv["place"]}, depth + 1) + suffix
     if rv["k"] == "binop":
         return "%s(%s,%s)" % (rv["op"].replace("WithOverflow", ""), describe(fa, S, rv["a"], depth + 1),
-                              describe(fa, S, rv["b"], depth + 1))
+                              describe(fa, S, rv["b"], depth + 1)) + suffix
     if rv["k"] == "agg":
-        return "agg"
-    return "_"
+        return "agg" + suffix
+    return "_" + suffix
 
 
 def enumerate_sites(crate, E, fns):
